@@ -156,6 +156,9 @@ pub fn run(cfg: &Cfg, seed: u64) -> (Arc<World>, crate::sim::SimStats) {
                         w2.log(Ev::Arrive { req: id });
                         let o = crate::actors::do_call(&w2, &mut svc, req, false, &map_err).await;
                         w2.log(Ev::Listener { name: format!("state-after-call:{id}"), a: st(state2.state()), b: matches!(o, Outcome::Ok { .. }) as u64 });
+                        // the other half of the published connection state: when was it last connected
+                        let since = state2.time_since_connected();
+                        w2.log(Ev::Listener { name: "since-connected".into(), a: since.is_some() as u64, b: since.map(|d| d.as_millis() as u64).unwrap_or(0) });
                         tokio::time::sleep(Duration::from_micros(500)).await;
                     }
                     w2.note("driver-done");
@@ -223,6 +226,30 @@ pub fn scenario(sseed: u64, _tier: Tier) -> Report {
 
 pub fn judge(cfg: &Cfg, log: &[Rec]) -> Report {
     let mut rep = Report::default();
+    // "last connected": unknown before the first inner success, known after a request has
+    // resolved with a success (whatever the clock says in between)
+    {
+        // (with retry_on_reconnect(false) the layer publishes Connected after the reconnection it
+        // assumes to have happened, see DESIGN §9: "last connected" then goes with the published state)
+        let (mut inner_ok, mut resolved_ok) = (false, false);
+        for r in log {
+            match &r.ev {
+                Ev::InnerExit { how: How::Ok, .. } => inner_ok = true,
+                Ev::Listener { name, a: 0, .. } if name == "state-sample" || name.starts_with("state-after-call") => inner_ok = true,
+                Ev::Resolve { out: Outcome::Ok { .. }, .. } => resolved_ok = true,
+                Ev::Listener { name, a, b } if name == "since-connected" => {
+                    rep.count("last_connected_reads", 1);
+                    if resolved_ok && *a == 0 && rep.violations.is_empty() {
+                        rep.violate("C16:never-connected-after-success", format!("t={}us: a request has resolved with a success (state Connected), but time_since_connected() says the connection was never established", r.t));
+                    }
+                    if !inner_ok && *a == 1 && rep.violations.is_empty() {
+                        rep.violate("C16:connected-before-any-success", format!("t={}us: time_since_connected() = {b} ms although no inner call has succeeded and Connected was never published", r.t));
+                    }
+                }
+                _ => {}
+            }
+        }
+    }
     let native = policy(&cfg.pol);
     let mut retries = 0u64;
     let mut other_path = false;
